@@ -457,6 +457,10 @@ func addStartFault(r *runner.Rand, p *Plan, prop string) {
 	sites := []string{"socket", "bind", "listen", "epoll_create", "eventfd", "epoll_ctl_add", "epoll_ctl_add", "setsockopt"}
 	if c.Client {
 		sites = []string{"epoll_create", "eventfd", "epoll_ctl_add"}
+		if c.SndBuf > 0 || c.KeepAlive > 0 {
+			// socket options applied to the duplicate of an enrolled connection
+			sites = append(sites, "setsockopt", "setsockopt", "setsockopt")
+		}
 	}
 	site := sites[r.Intn(len(sites))]
 	dups := 0
@@ -486,6 +490,9 @@ func addStartFault(r *runner.Rand, p *Plan, prop string) {
 	case "setsockopt":
 		f.Errno = int(unix.ENOPROTOOPT)
 		f.Nth = r.Range(1, 6)
+		if c.Client {
+			f.Nth = r.Range(1, 3)
+		}
 	}
 	p.Faults = append(p.Faults, f)
 }
